@@ -29,7 +29,7 @@ type linkProj struct {
 	facts  []LinkFact
 }
 
-func (lp *linkProj) id() string { lp.n++; return "n" + strconv.Itoa(lp.n) }
+func (lp *linkProj) id() string          { lp.n++; return "n" + strconv.Itoa(lp.n) }
 func (lp *linkProj) leaf(t, v string) GT { return GT{T: t, V: v, P: lp.id()} }
 
 func (lp *linkProj) defName(d *ast.Definition) string {
